@@ -7,6 +7,11 @@ import (
 	"mltwist/pkg/model"
 )
 
+// maxProgSize is maximal size of a single program section in memory. The
+// whole section is held in memory, so corrupted headers describing enormous
+// sections have to be refused instead of being allocated.
+const maxProgSize = 1 << 30
+
 type Parser struct {
 	f *elf.File
 }
@@ -61,6 +66,11 @@ func (p *Parser) Memory() (*Memory, error) {
 			return nil, fmt.Errorf(
 				"program section in memory less then in file: %d < %d",
 				p.Memsz, p.Filesz)
+		}
+		if p.Memsz > maxProgSize {
+			return nil, fmt.Errorf(
+				"program section is too big to be loaded: %d > %d",
+				p.Memsz, uint64(maxProgSize))
 		}
 
 		data, err := io.ReadAll(p.Open())
